@@ -116,7 +116,7 @@ _bad = 0
 
 
 def op_cm(data, name="ingress/cfg"):
-    d = {"external-has-lua": "true"}
+    d = {"external-has-lua": "true"} if name == "ingress/cfg" else {}
     d.update(data)
     return dict(kind="cm", name=name, data=d)
 
@@ -138,6 +138,7 @@ EXT_ING = {
     "resb": dict(label="resb", rules=[R(H1, P("/r", "res:bucket"), P("/s", "s1"))]),
     "defb": dict(label="defb", rules=[R(H1, P("/x", "s1"))], **{"def": P("", "s2")}),
     "wild": dict(label="wild", rules=[R("*.h1.local", P("/", "s2"))], tls=[T("c2", "*.h1.local")]),
+    "p80": dict(label="p80", rules=[R(H2, P("/p", "s1", "", "80"))]),     # service port 80 -> targetPort 8080: the backend is d_s1_8080
     "multi": dict(label="multi", rules=[R(H1, P("/m", "s1"), P("/m/n", "s2", "prefix"), P("/M", "s2", "exact")), R(H2, P("/m", "s1"))]),
 }
 
@@ -226,7 +227,8 @@ def random_history(rng, hid, steps=6, ext=False, shards=None, batch=3, slots=3, 
                 ops.append(op_cm(rng.choice([{}, {"ssl-redirect": "false"}, {"drain-support": "true"}, {"timeout-client": "30s"},
                                              # global keys that are rendered inside the backend sections (shard files)
                                              {"ssl-redirect-code": "301"}, {"ssl-headers-prefix": "X-TLS"}, {"cookie-key": "Other"},
-                                             {"config-proxy": "d_s1_8080\n  http-request deny if { path /zz }"}])))
+                                             {"config-proxy": "d_s1_8080\n  http-request deny if { path /zz }"}]))
+                           if rng.random() < 0.9 else op_del("cm", "ingress/cfg"))
             elif ext:
                 ops.append(rng.choice([op_sec("basic", rng.choice(["auth:usr:pwd", "auth:usr:other", "absent"])),
                                        op_sec("ca", rng.choice(["ca:ca1", "ca:ca2", "absent"])),
@@ -359,6 +361,46 @@ def random_pod_history(rng, hid, steps=6):
         if rng.random() < 0.3:
             st["shuffle"] = rng.randrange(1, 1 << 30)
         h["steps"].append(st)
+    return h
+
+
+TCPCM = [
+    {},
+    {"7010": "d/s1:8080"},
+    {"7010": "d/s2:8080", "7011": "d/s1:8080:PROXY"},
+    {"7010": "d/s1:8080:::d/c1"},
+    {"7010": "d/s1:8080:::d/c1::d/ca", "7011": "d/s2:8080"},
+    {"7012": "d/s1:http:PROXY:PROXY-V1"},
+    {"7010": "d/s1:8080", "7013": "d/s3:8080"},      # s3 does not exist
+]
+
+
+def random_tcpcm_history(rng, hid, steps=6):
+    """TCP services declared by the tcp-services ConfigMap (no tracking links: the converter rebuilds them in every
+    reconciliation): the ConfigMap, the services, their endpoints and the crt / ca secrets change in partial syncs."""
+    h = dict(id=hid, opt=dict(shards=rng.choice([0, 0, 3]), watchwithoutclass=True), steps=[])
+    for s in range(steps):
+        ops = []
+        if s == 0:
+            ops += base_ops() + [op_sec("ca", "ca:ca1"), op_cm(rng.choice(TCPCM), name="ingress/tcp"), op_ing(1, rng.choice(["t1", "t4"]))]
+        for _ in range(1 + rng.randrange(2)):
+            r = rng.random()
+            if r < 0.05:
+                ops.append(op_del("cm", "ingress/tcp"))
+            elif r < 0.3:
+                ops.append(op_cm(rng.choice(TCPCM), name="ingress/tcp"))
+            elif r < 0.5:
+                ops.append(op_eps(rng.choice(["s1", "s2"]), rng.choice(["e0", "e1", "e2", "e4"])))
+            elif r < 0.7:
+                ops.append(op_sec("c1", rng.choice(["absent", "crt:c1", "crt:c1v2", "bad"])))
+            elif r < 0.8:
+                ops.append(op_sec("ca", rng.choice(["absent", "ca:ca1", "ca:ca2"])))
+            elif r < 0.9:
+                svc = rng.choice(["s1", "s2"])
+                ops.append(rng.choice([op_del("svc", "%s/%s" % (NS, svc)), op_svc(svc), op_svc(svc, ports=["other:9090:9090"])]))
+            else:
+                ops.append(op_ing(1 + rng.randrange(2), rng.choice(["t1", "t2", "t4", "t9"])))
+        h["steps"].append(dict(ops=ops, fullfirst=False))
     return h
 
 
